@@ -196,6 +196,9 @@ var forges = func() []forge {
 		{"aud-case", resign(func(cl map[string]any) { cl["aud"] = strings.ToUpper(cl["aud"].(string)) })},
 		{"aud-spaces", resign(func(cl map[string]any) { cl["aud"] = " " + cl["aud"].(string) + " " })},
 		{"aud-array-without", resign(func(cl map[string]any) { cl["aud"] = []string{"x", "y"} })},
+		{"aud-array-without-azp-client", resign(func(cl map[string]any) { cl["azp"] = cl["aud"]; cl["aud"] = []string{"x", "y"} })},
+		{"aud-foreign-azp-client", resign(func(cl map[string]any) { cl["azp"] = cl["aud"]; cl["aud"] = "other-client" })},
+		{"aud-array-without-client-id-claim", resign(func(cl map[string]any) { cl["client_id"] = cl["aud"]; cl["aud"] = []string{"x", "y"} })},
 		{"aud-empty-array", resign(func(cl map[string]any) { cl["aud"] = []string{} })},
 		{"aud-empty-string", resign(func(cl map[string]any) { cl["aud"] = "" })},
 		{"nonce-absent", resign(func(cl map[string]any) { delete(cl, "nonce") })},
